@@ -331,8 +331,23 @@ def make_node(ctx: Ctx, spec: dict, flavour: str):
         on = None if not outs else (outs[0] if len(outs) == 1 else tuple(outs))
         cls = FunctionNode if kind == "func" else InterruptNode
         node = cls(fn, name=spec["name"], output_name=on, **common)
+    elif kind == "ifelse" and _via_decorator(spec):
+        from hypergraph import ifelse
+
+        node = ifelse(when_true=_tgt(spec["t"]), when_false=_tgt(spec["f"]), name=spec["name"], default_open=spec.get("default_open", True), **common)(fn)
     elif kind == "ifelse":
         node = IfElseNode(fn, _tgt(spec["t"]), _tgt(spec["f"]), name=spec["name"], default_open=spec.get("default_open", True), **common)
+    elif kind == "route" and _via_decorator(spec):
+        from hypergraph import route
+
+        node = route(
+            targets=[_tgt(t) for t in spec["targets"]],
+            fallback=_tgt(spec["fallback"]) if spec.get("fallback") is not None else None,
+            multi_target=spec.get("multi", False),
+            name=spec["name"],
+            default_open=spec.get("default_open", True),
+            **common,
+        )(fn)
     elif kind == "route":
         node = RouteNode(
             fn,
@@ -362,6 +377,14 @@ def apply_renames(node, spec):
     return node
 
 
+def _via_decorator(spec) -> bool:
+    """Gates are declared through the documented decorators (@ifelse / @route) or through the node classes; both forms must
+    mean the same.  Decided by the IR (explicit flag, else a fixed function of the node name), never by chance."""
+    if "decorator" in spec:
+        return bool(spec["decorator"])
+    return crc(spec["name"]) % 2 == 0
+
+
 def warm(node):
     """Touch what a user inspecting a node would read, so every lazily cached attribute is populated before the next
     derivation (a clone must not inherit a stale cache)."""
@@ -373,6 +396,11 @@ def warm(node):
     for p in tuple(node.inputs):
         node.has_default_for(p)
         node.get_input_type(p)
+    try:
+        getattr(node, "nx_attrs", None)
+        Graph([node])  # the node has been part of a graph before it is derived from
+    except Exception:  # noqa: BLE001 - a node that cannot stand alone (gate without its targets) is simply not used
+        pass
 
 
 def make_graph(ctx: Ctx, gspec: dict, flavour: str = "sync"):
